@@ -276,3 +276,68 @@ Proof.
   intros k0 v0 [H|[H|[]]]; inversion H; subst; (split; [reflexivity|]); (split; [reflexivity|]); eexists;
     (split; [vm_compute; reflexivity|]); simpl; auto; discriminate.
 Qed.
+
+(* ================================================================== where `continue` comes from (round G)
+   "unless the run is legitimately cut short by a failure without --continue": whether a run is under `continue`
+   is decided by DoitCmdBase.execute (Model/RunConfig.v execute_params): the value handed to Run._execute as
+   continue_ (the `cont` argument of run_serial / the parallel runners above) is read AFTER DOIT_CONFIG of the dodo
+   module was merged into the parsed options.  p = the options after the command line was parsed (non-default keys
+   d_nd p = what the command line wrote), dodo = DOIT_CONFIG. *)
+From DoitV Require Import CmdParse CmdParseR RunConfig RunConfigP.
+
+Theorem C02_continue_is_read_after_doit_config :
+  forall kc kc_ p dodo,
+  d_get (execute_params kc kc_ p dodo) kc_ =
+    Some (match (if mem kc (d_nd p) then d_get p kc
+                 else match lookup_last dodo kc with Some x => Some x | None => d_get p kc end)
+          with Some v => v | None => VNone end).
+Proof. exact execute_continue_spec. Qed.
+Print Assumptions C02_continue_is_read_after_doit_config.
+
+(* `continue` written in DOIT_CONFIG and not on the command line is the continue_ of the run *)
+Theorem C02_continue_from_doit_config :
+  forall kc kc_ p dodo v,
+  mem kc (d_nd p) = false -> lookup_last dodo kc = Some v ->
+  d_get (execute_params kc kc_ p dodo) kc_ = Some v.
+Proof. exact continue_from_doit_config. Qed.
+Print Assumptions C02_continue_from_doit_config.
+
+(* the whole chain, for options parsed from defaults (tool configuration over declared default) and a command line:
+   command line > DOIT_CONFIG > default held by the parser *)
+Theorem C02_continue_precedence :
+  forall kc kc_ defaults cli dodo,
+  d_get (execute_params kc kc_ (parsed defaults cli) dodo) kc_ =
+  Some (match (match lookup_last cli kc with
+               | Some v => Some v
+               | None => match lookup_last dodo kc with
+                         | Some v => Some v
+                         | None => lookup_last defaults kc
+                         end
+               end) with Some v => v | None => VNone end).
+Proof. exact continue_precedence. Qed.
+Print Assumptions C02_continue_precedence.
+
+(* every other option handed to _execute (num_process, par_type, ...) is the merged value as well *)
+Theorem C02_run_option_is_merged_value :
+  forall kc kc_ p dodo k, k <> kc_ ->
+  d_get (execute_params kc kc_ p dodo) k =
+    (if mem k (d_nd p) then d_get p k
+     else match lookup_last dodo k with Some x => Some x | None => d_get p k end).
+Proof. exact execute_other_spec. Qed.
+Print Assumptions C02_run_option_is_merged_value.
+
+(* the copy made BEFORE the merge (the order of seeded change C02g) is refuted: DOIT_CONFIG says continue, the
+   command line is silent, the run would not be under continue *)
+Theorem C02_continue_read_before_merge_refuted :
+  exists p dodo, lookup_last dodo 0 = Some (VBool true) /\ mem 0 (d_nd p) = false /\
+    d_get (execute_params_early 0 3 p dodo) 3 = Some (VBool false) /\
+    d_get (execute_params 0 3 p dodo) 3 = Some (VBool true).
+Proof. exact early_copy_loses_doit_config. Qed.
+Print Assumptions C02_continue_read_before_merge_refuted.
+
+(* non-vacuity / the encoding used by harness/c02_cfg.py: doit.cfg says num_process 2, DOIT_CONFIG says continue
+   and par_type thread, the command line says -P process: _execute receives continue_ True, num_process 2, process *)
+Example C02_run_cfg_nonvacuous :
+  enc_run_cfg (execute_params 0 3 (parsed (overlay [(0, VBool false); (1, VInt 0); (2, VInt 0)] [(1, VInt 2)]) [(2, VInt 0)])
+                              [(0, VBool true); (2, VInt 1)]) = [1; 2; 0]%Z.
+Proof. vm_compute. reflexivity. Qed.
